@@ -160,20 +160,20 @@ def tags_compare(which, chunk=None, timeout_ms=None):
 
 
 # ---------------------------------------------------------------- markers (combinator layer)
-def _marker_env():
+def _marker_env(with_names=True):
     from pyvc import extract
     from pyvc.engine import Exec
     from pyvc.theories.marker import MarkerTheory
     from contracts import markers as C
     ix = extract.Index()
     th = MarkerTheory(ix)
-    ax = th.axioms(lambda: Exec(ix, th))
+    ax = th.axioms(lambda: Exec(ix, th), with_names=with_names)
     return ix, th, ax, C
 
 
-def marker_function(name, timeout_ms=None):
+def marker_function(name, timeout_ms=None, vc_slice=None):
     from pyvc import verify
-    ix, th, ax, C = _marker_env()
+    ix, th, ax, C = _marker_env(with_names=(":SingleMarker." in name or name.endswith(".only")))
     contracts = C.all_contracts(th)
     c = contracts[name]
     C.install(th, contracts)
@@ -185,4 +185,4 @@ def marker_function(name, timeout_ms=None):
                 yield nm, args, list(pre) + ax
     w = Wrapped.__new__(Wrapped)
     w.__dict__.update(c.__dict__)
-    return verify.verify_function(ix, th, w, use_contracts=use, contracts=contracts, loop_specs=C.loop_specs(th), timeout_ms=timeout_ms)
+    return verify.verify_function(ix, th, w, use_contracts=use, contracts=contracts, loop_specs=C.loop_specs(th), timeout_ms=timeout_ms, vc_slice=vc_slice)
